@@ -691,11 +691,68 @@ func init() {
 			u := FuncUnit{fn, fd, pkg}
 			info := pkg.TypesInfo
 			fc := c.cfgOf(u, nil)
-			// the returned local: the ident of the last return statement
+			// quote-like wrappers: Quote, and helpers of the package that hand back their first
+			// parameter after wrapping it in Quote any number of times (position kept)
+			quoteLike := func(f *types.Func) bool {
+				if f == nil {
+					return false
+				}
+				if f == quote {
+					return true
+				}
+				qd := c.declOf[f]
+				if qd == nil || qd.Body == nil || f.Pkg() != fn.Pkg() {
+					return false
+				}
+				qinfo := c.pkgOf[qd].TypesInfo
+				ps := paramObjs(FuncUnit{f, qd, c.pkgOf[qd]})
+				if len(ps) == 0 {
+					return false
+				}
+				ok := true
+				ast.Inspect(qd.Body, func(n ast.Node) bool {
+					switch x := n.(type) {
+					case *ast.ReturnStmt:
+						if len(x.Results) != 1 || identObj(qinfo, x.Results[0]) != ps[0] {
+							ok = false
+						}
+					case *ast.AssignStmt:
+						for i, l := range x.Lhs {
+							if identObj(qinfo, l) == ps[0] {
+								good := false
+								if len(x.Lhs) == len(x.Rhs) {
+									if ce, isC := ast.Unparen(x.Rhs[i]).(*ast.CallExpr); isC && originOf(Callee(qinfo, ce)) == quote && len(ce.Args) == 1 && identObj(qinfo, ce.Args[0]) == ps[0] {
+										good = true
+									}
+								}
+								if !good {
+									ok = false
+								}
+							}
+						}
+					}
+					return true
+				})
+				return ok
+			}
+			// the local a return statement hands back: itself, or as the operand of a quote-like wrapper
+			returned := func(rs *ast.ReturnStmt) types.Object {
+				if len(rs.Results) != 1 {
+					return nil
+				}
+				if o := identObj(info, rs.Results[0]); o != nil {
+					return o
+				}
+				if ce, ok := ast.Unparen(rs.Results[0]).(*ast.CallExpr); ok && len(ce.Args) >= 1 && quoteLike(originOf(Callee(info, ce))) {
+					return identObj(info, ce.Args[0])
+				}
+				return nil
+			}
+			// the returned local: that of the last return statement
 			var ret types.Object
 			ast.Inspect(fd.Body, func(n ast.Node) bool {
-				if rs, ok := n.(*ast.ReturnStmt); ok && len(rs.Results) == 1 {
-					if o := identObj(info, rs.Results[0]); o != nil {
+				if rs, ok := n.(*ast.ReturnStmt); ok {
+					if o := returned(rs); o != nil {
 						ret = o
 					}
 				}
@@ -719,7 +776,7 @@ func init() {
 					if !ok {
 						continue
 					}
-					if f := originOf(Callee(info, ce)); f == nil || f == quote {
+					if f := originOf(Callee(info, ce)); f == nil || quoteLike(f) {
 						continue // Quote copies the node (position included) or wraps it
 					}
 					construct := ord.next("list built by " + types.ExprString(ce.Fun))
@@ -733,13 +790,13 @@ func init() {
 										return svStop
 									}
 									if identObj(info, lh) == ret {
-										if c2, ok := ast.Unparen(x.Rhs[0]).(*ast.CallExpr); ok && originOf(Callee(info, c2)) != quote {
+										if c2, ok := ast.Unparen(x.Rhs[0]).(*ast.CallExpr); ok && !quoteLike(originOf(Callee(info, c2))) {
 											return svStop // a new construction: checked on its own
 										}
 									}
 								}
 							case *ast.ReturnStmt:
-								if len(x.Results) == 1 && identObj(info, x.Results[0]) == ret {
+								if returned(x) == ret {
 									return svBad
 								}
 							}
